@@ -93,6 +93,7 @@ fn main() {
         "c13" => drivers::derive::run_c13(&mut ctx),
         "cache" => drivers::cache::run(&mut ctx),
         "corner" => drivers::corner::run(&mut ctx),
+        "poisson" => drivers::poisson::run(&mut ctx),
         "demand" => drivers::cost::run_demand(&mut ctx),
         d => {
             eprintln!("unknown driver {}", d);
